@@ -99,6 +99,11 @@ func (fr *FnRun) builtin(st *State, site ssa.Instruction, c *ssa.CallCommon, nam
 	case "recover":
 		k(st, &IfaceV{Nil: tTrue})
 		return
+	case "Sizeof":
+		// unsafe.Sizeof of a value whose type is a type parameter (otherwise it is a constant): an
+		// unknown non-negative size, the same term for every use of the same type parameter
+		k(st, fr.sizeofTerm(st, c.Args[0].Type()))
+		return
 	case "ssa:wrapnilchk":
 		if p, ok := args[0].(*PtrV); ok {
 			fr.oblige(st, "nil", fr.ordOf(site)+"w", Not(p.Nil), nil, "method value receiver is not nil")
@@ -525,4 +530,15 @@ func arrLeaves(d ArrData) []*Term {
 		return []*Term{a.Data}
 	}
 	return nil
+}
+
+// sizeofTerm: the size of a type as a term; a fresh non-negative constant (one per type parameter
+// and function run) when the type is a type parameter.
+func (fr *FnRun) sizeofTerm(st *State, t types.Type) *Term {
+	if !isTypeParam(t) {
+		return Int(fr.ex.sizeOf(t))
+	}
+	v := Var("sizeof!"+sanitize(t.String()), SInt)
+	st.assume(Le(Int(0), v))
+	return v
 }
